@@ -68,4 +68,15 @@ var units = []Unit{
 		{Kind: "cond", Name: "ValidateMessage_isV1", Func: "Validator.ValidateMessage", Anchor: "p.ProtocolVersion"},
 		{Kind: "cond", Name: "ValidateMessage_afterV1", Func: "Validator.ValidateMessage", Anchor: "BaseTypeNumMask"},
 	}},
+	{Name: "decoder", Dir: "decoder", Items: []Item{
+		// the compressed-timestamp arithmetic of decodeMessageData: timeOffset, d.timestamp, d.lastTimeOffset
+		{Kind: "block", Name: "decodeMessageData_timestamp", Func: "Decoder.decodeMessageData", Anchor: "d.lastTimeOffset"},
+		// timestamp tracking of decodeFields: d.timestamp = timestamp; d.lastTimeOffset = byte(timestamp & mask)
+		{Kind: "block", Name: "decodeFields_timestamp", Func: "Decoder.decodeFields", Anchor: "d.lastTimeOffset"},
+		{Kind: "cond", Name: "decodeMessageData_isCompressed", Func: "Decoder.decodeMessageData", Anchor: "MesgCompressedHeaderMask", Occur: 1},
+	}},
+	{Name: "encoder", Dir: "encoder", Items: []Item{
+		// the decision and header composition of compressTimestampIntoHeader (after the loop over the fields)
+		{Kind: "block", Name: "compressTimestampIntoHeader_decide", Func: "Encoder.compressTimestampIntoHeader", Anchor: "e.timestampReference", Up: 1},
+	}},
 }
